@@ -17,7 +17,9 @@ From Coq Require Import List Arith ZArith Bool.
 From T4V Require Import Base.Scalar.
 Import ListNotations.
 
-Inductive err := EZeroDiv | ELattice | EAssert | ELoop | EStop.
+(* EOther: any other Python exception; never produced by the model, so that an
+   implementation raising one always disagrees with it *)
+Inductive err := EZeroDiv | ELattice | EAssert | ELoop | EStop | EOther.
 Inductive res (A : Type) := Ok (a : A) | Err (e : err).
 Arguments Ok {A}. Arguments Err {A}.
 
